@@ -21,14 +21,15 @@ type cut struct {
 	Race int    // concurrent kinds: entries applied while the snapshot is written
 	More int    // entries queued behind the Save task before the worker runs
 	Req  rsm.SSReqType
+	Hold bool // the entries before the request are still queued when it is made
 }
 
 func (c cut) String() string {
-	return fmt.Sprintf("%s@%d(race %d, queued-behind %d)", c.Kind, c.At, c.Race, c.More)
+	return fmt.Sprintf("%s@%d(race %d, queued-behind %d, queued-before %t)", c.Kind, c.At, c.Race, c.More, c.Hold)
 }
 
 func drawCuts(t *rapid.T, lo, hi uint64, max int, kinds []string) []cut {
-	n := rapid.IntRange(0, max).Draw(t, "cuts")
+	n := max - rapid.IntRange(0, max).Draw(t, "cuts") // leans towards many cuts
 	var out []cut
 	for i := 0; i < n; i++ {
 		c := cut{
@@ -44,16 +45,24 @@ func drawCuts(t *rapid.T, lo, hi uint64, max int, kinds []string) []cut {
 		if rapid.Bool().Draw(t, "cutUser") {
 			c.Req = rsm.UserRequested
 		}
+		c.Hold = rapid.Bool().Draw(t, "cutHold")
 		out = append(out, c)
 	}
 	sort.SliceStable(out, func(i, j int) bool { return out[i].At < out[j].At })
 	return out
 }
 
-// feedTo hands r the log entries (applied, upTo] in generated task sizes,
+// feedTo hands r the log entries (pushed, upTo] in generated task sizes,
 // running the apply worker after every few tasks.
 func feedTo(t *rapid.T, r *replica, ents []pb.Entry, upTo uint64, label string) {
-	from := r.cur.sm.GetLastApplied() + 1
+	feedHold(t, r, ents, upTo, label, false)
+}
+
+// feedHold is feedTo, but with hold the last burst of tasks stays in the
+// queue (the apply worker has not got to it yet when the caller queues the
+// next thing, e.g. a snapshot request).
+func feedHold(t *rapid.T, r *replica, ents []pb.Entry, upTo uint64, label string, hold bool) {
+	from := r.pushed + 1
 	if upTo < from {
 		return
 	}
@@ -67,6 +76,9 @@ func feedTo(t *rapid.T, r *replica, ents []pb.Entry, upTo uint64, label string) 
 			r.add(tk)
 		}
 		tasks = tasks[k:]
+		if hold && len(tasks) == 0 {
+			return
+		}
 		r.run()
 	}
 }
@@ -87,7 +99,7 @@ func applyCut(t *rapid.T, r *replica, ents []pb.Entry, c cut, label string) {
 			req = rsm.SSRequest{Type: rsm.Exported, Path: dir}
 		}
 		r.addSave(req)
-		at := r.cur.sm.GetLastApplied()
+		at := r.pushed
 		hi := at + uint64(c.More)
 		if hi > n {
 			hi = n
@@ -152,9 +164,12 @@ func runC05(t *rapid.T, st *vfhelp.Stats) {
 		kind = kConcurrent
 	}
 	limit := rapid.IntRange(2, 6).Draw(t, "lruLimit")
-	nClients := rapid.IntRange(1, 12).Draw(t, "clients")
-	if rapid.IntRange(0, 2).Draw(t, "moreThanLimit") > 0 && nClients <= limit {
-		nClients = limit + rapid.IntRange(1, 4).Draw(t, "extraClients")
+	// 0..5: more clients than the session table holds; 6..9: no eviction pressure
+	var nClients int
+	if rapid.IntRange(0, 9).Draw(t, "pressure") < 6 {
+		nClients = limit + rapid.IntRange(1, 12-limit).Draw(t, "extraClients")
+	} else {
+		nClients = rapid.IntRange(1, limit).Draw(t, "clients")
 	}
 	env := &caseEnv{t: t, kind: kind, pad: drawPad(t)}
 	env.cfg = config.Config{ShardID: 1, ReplicaID: 1,
@@ -166,7 +181,8 @@ func runC05(t *rapid.T, st *vfhelp.Stats) {
 		boot: rapid.IntRange(1, 3).Draw(t, "boot")}
 	defaultWeights(&o)
 	o.recentN = limit
-	if rapid.IntRange(0, 3).Draw(t, "churn") == 0 {
+	o.wNew, o.wDupCur, o.wDupStale = 5, 18, 12
+	if rapid.IntRange(0, 3).Draw(t, "churn") == 3 {
 		// registration heavy: evictions all the time
 		o.wNew, o.recentBias = 20, 30
 	}
@@ -178,7 +194,7 @@ func runC05(t *rapid.T, st *vfhelp.Stats) {
 	}
 	ents, meta := g.ents, g.meta
 	last := uint64(len(ents))
-	cuts := drawCuts(t, uint64(o.boot), last, 4, []string{"save", "save-restart", "save-restart", "restart", "export"})
+	cuts := drawCuts(t, uint64(o.boot), last, 5, []string{"save-restart", "save", "save-restart", "restart", "export", "save-restart"})
 
 	// twin A: one incarnation, never snapshots, inspected only at the end
 	a := newReplica(env, "A", 1)
@@ -237,7 +253,7 @@ func runC05(t *rapid.T, st *vfhelp.Stats) {
 	b := newReplica(env, "B", 1)
 	b.start()
 	for i, c := range cuts {
-		feedTo(t, b, ents, c.At, "b")
+		feedHold(t, b, ents, c.At, "b", c.Hold)
 		applyCut(t, b, ents, c, fmt.Sprintf("b%d", i))
 		if inc := b.cur; len(inc.fed) == 0 && len(inc.recovers) > 0 {
 			// just restarted from a snapshot: must be where the uninterrupted twin was
@@ -255,12 +271,7 @@ func runC05(t *rapid.T, st *vfhelp.Stats) {
 	// differential, per incarnation of B
 	dupAfterCut := map[string]int{}
 	for _, inc := range b.incs() {
-		lastFed := inc.startAt
-		for _, idx := range inc.fed {
-			if idx > lastFed {
-				lastFed = idx
-			}
-		}
+		lastFed := inc.end()
 		for idx := inc.startAt + 1; idx <= lastFed; idx++ {
 			ao, bo := a.cur.node.byIndex[idx], inc.node.byIndex[idx]
 			if len(ao) != len(bo) || (len(ao) == 1 && !sameOutcome(ao[0], bo[0])) {
